@@ -8,6 +8,7 @@
   names in lexical order). File names contain no path separator.
 -/
 import Cpf.Lemmas.JsonRoundtrip
+import Cpf.Rules.JsonDoc
 
 namespace Cpf.Rules.Bundle
 open Cpf.Rules.Json
@@ -34,5 +35,45 @@ def consume (bundle : List (List Char × List Char)) : List (Option (List Char))
 
 /-- what loading the same directory from disk yields -/
 def loadLocal (dir : List File) : List (List Char) := (dir.filter (fun f => hasCqlSuffix f.name)).map (·.content)
+
+/-! ### the bundle as a document -/
+
+def kRuleset : List Char := ['r', 'u', 'l', 'e', 's', 'e', 't']
+def kFiles : List Char := ['f', 'i', 'l', 'e', 's']
+def kFileName : List Char := ['f', 'i', 'l', 'e', '_', 'n', 'a', 'm', 'e']
+def kContent : List Char := ['c', 'o', 'n', 't', 'e', 'n', 't']
+
+open Cpf.Rules.JsonDoc in
+/-- the document the bundling script marshals (struct fields in declaration order: ruleset, files) -/
+def bundleDoc (name : List Char) (dir : List File) : JV :=
+  .obj [(kRuleset, .str name),
+        (kFiles, .arr ((dir.filter (fun f => ext f.name == ['.', 'c', 'q', 'l'])).map
+          (fun f => JV.obj [(kFileName, .str f.name), (kContent, .str f.content)])))]
+
+/-- the bytes the script writes: `json.MarshalIndent(doc, "", "  ")` -/
+def bundleBytes (name : List Char) (dir : List File) : List Char := Cpf.Rules.JsonDoc.encIndent 0 (bundleDoc name dir)
+
+open Cpf.Rules.JsonDoc in
+def memberOf (k : List Char) : List (List Char × JV) → Option JV
+  | [] => none
+  | (k', v) :: r => if k' == k then some v else memberOf k r
+
+open Cpf.Rules.JsonDoc in
+/-- `downloadRuleset` on the decoded response: `response["files"].([]interface{})`, each `file.(map)`,
+    `rule["content"].(string)` -/
+def consumeDoc : JV → List (List Char)
+  | .obj kvs =>
+      match memberOf kFiles kvs with
+      | some (.arr files) => files.filterMap (fun f =>
+          match f with
+          | .obj m => match memberOf kContent m with
+                      | some (.str c) => some c
+                      | _ => none
+          | _ => none)
+      | _ => []
+  | _ => []
+
+/-- the hosted loader on the served bytes -/
+def loadHosted (bytes : List Char) : Option (List (List Char)) := (Cpf.Rules.JsonDoc.decodeWs bytes).map consumeDoc
 
 end Cpf.Rules.Bundle
